@@ -731,7 +731,9 @@ func (s *BgpServer) filterpath(peer *peer, path, old *table.Path) *table.Path {
 		if o, oldOptions, stop := s.prePolicyFilterpath(peer, old, nil); !stop {
 			oldOptions.Validate = s.roaTable.Validate
 			if peer.policy.ApplyPolicy(peer.TableID(), table.POLICY_DIRECTION_EXPORT, o, oldOptions) != nil {
-				path = old.Clone(true)
+				// withdraw the route as it was advertised: toward a neighbor in a
+				// VRF that is the unicast prefix, not the VPN route of the Loc-RIB
+				path = o.Clone(true)
 			}
 		}
 	}
